@@ -27,9 +27,9 @@ def explore_plan(tier, frag, idx, astr):
         return False, 0, 0
     if tier == 'quick':
         return (idx % 8 == 0 or (astr.count(':') >= 2 and idx % 2 == 0)), 1, 12
-    if idx % 8 == 0:
+    if idx % 16 == 0:
         return True, 2, 80
-    if idx % 2 == 0 or astr.count(':') >= 2:
+    if idx % 4 == 0 or astr.count(':') >= 2:
         return True, 1, 15
     return False, 0, 0
 
@@ -90,7 +90,7 @@ def _task(task):
         else:
             runs.append(('default', tabx.execute(name, arg, extra_opts=cap)))
             out['distinct_hist'] += 1
-        optsel = ('nogroup', 'norank', 'neither') if (idx % 8 == 3 if tier == 'quick' else idx % 2 == 1) else ()
+        optsel = ('nogroup', 'norank', 'neither') if (idx % 8 == 3 if tier == 'quick' else idx % 4 == 1) else ()
         for o in optsel:
             runs.append((o, tabx.execute(name, arg, optname=o, extra_opts=cap)))
         any_valid = False
@@ -142,8 +142,8 @@ def run(ctx):
         evaluations=execs, distinct_nontrivial=sum(r['valid_args'] for r in res),
         rule=('arguments: PROP slice + all MODAL and FO (+FO-modal) arguments of the tier for each of the 57 logics; executions: the default '
               'schedule plus every schedule within the deviation bound (quick: 1 deviation on every eighth argument and on every second argument with >= 2 '
-              'premises, <= 12 executions each; thorough: 2 deviations on every eighth argument (<= 80 executions), 1 deviation on every second and on all with >= 2 premises) '
-              'plus the three non-default option combinations (quick: every eighth argument, thorough: every second); states = distinct step histories; non-trivial = arguments with at least one valid verdict, each checked by an exhaustive '
+              'premises, <= 12 executions each; thorough: 2 deviations on every 16th argument (<= 80 executions), 1 deviation on every fourth and on all with >= 2 premises) '
+              'plus the three non-default option combinations (quick: every eighth argument, thorough: every fourth); states = distinct step histories; non-trivial = arguments with at least one valid verdict, each checked by an exhaustive '
               'reference countermodel search (quick: <= 2 worlds, <= 1 anonymous element; thorough: <= 3 worlds bivalent, <= 2 anonymous)'),
         arguments=sum(r['args'] for r in res), valid_executions=sum(r['valid_execs'] for r in res),
         outcome_classes=outcomes, choice_points_on_default_schedules=sum(r['choice_points'] for r in res),
